@@ -188,6 +188,8 @@ def check(repo, rep, tier):
     r_feature_methods(repo, rep, 'R8.7')
     from .c05 import r_atoms
     r_atoms(repo.module('depccg/cat.py'), rep, 'R8.7')      # the categories of a line are read by Category.parse: an atom keeps the feature that is written
+    from .c15 import r_extension_dispatch_text
+    r_extension_dispatch_text(repo, rep, 'R8.7', 'read_auto')
     am = repo.module(AUTO)
     p, (lst, leaf), (nst, node) = writer_templates(am, 'auto_of')
     ltoks = codec.fstr_tokens(leaf)
